@@ -36,12 +36,14 @@ def units(tier):
         U("cond.2w_single_notify", dict(waiters=2, notifiers=0, final="notify"), 34),
         U("cond.2w_final_all.Lock", dict(waiters=2, notifiers=0, final="notify_all", lock_cls="Lock"), 34),
         U("cond.2w_final_all.reentrant", dict(waiters=2, notifiers=0, final="notify_all", reentrant=True), 40),
+        U("cond.2w_final_all.mixed_depth", dict(waiters=2, notifiers=0, final="notify_all", reentrant="mixed"), 38),
         U("cond.2w_final_all.xproc", dict(waiters=2, notifiers=0, final="notify_all", same_process=False), 34),
         U("event.2w_1s", dict(kind="event", waiters=2, setters=1), 38),
         U("event.1w_1s_1c_1p", dict(kind="event", waiters=1, setters=1, clearers=1, probers=1), 40),
         H("C14", C, "check_constructors", 300, ["loky.backend.synchronize:Lock.__init__", "loky.backend.synchronize:RLock.__init__",
           "loky.backend.synchronize:Semaphore.__init__", "loky.backend.synchronize:BoundedSemaphore.__init__",
           "loky.backend.synchronize:SemLock.__getstate__", "loky.backend.synchronize:SemLock.__setstate__"], "4 classes, value 0..6"),
+        H("C14", C, "check_wait_for", 300, ["loky.backend.synchronize:Condition.wait_for"], "predicate true from its 1st..5th evaluation, timeout none or 1..6 ticks, 1..3 ticks per wait"),
         H("C14", C, "check_context_factories", 300, ["loky.backend.context:LokyContext.Lock", "loky.backend.context:LokyContext.Condition",
           "loky.backend.context:LokyContext.Event"], "6 factory methods"),
     ]
